@@ -30,6 +30,11 @@ def main():
         for h in t.get("free_helpers", []) or []:
             if isinstance(h, tuple): translated.setdefault((h[1], h[0]), []).append(t["name"] + " (inlined)")
             else: translated.setdefault((t["file"], h), []).append(t["name"] + " (inlined)")
+    try:
+        import extract_bigint as eb
+        for name, fn, nth in eb.FUNCS: translated.setdefault((eb.FILE, fn), []).append("tr_bigint_%s_{default,fast}" % name)
+    except Exception:
+        pass
     deleg = set()
     try:
         import extract_delegations as ed
